@@ -249,7 +249,8 @@ fn explicit_case(r: &mut Rg, k: u64) -> ExplicitCase {
         add(&mut totals, a, v as u128);
         let mut txin = TxIn {
             previous_output: OutPoint { txid: Txid::from_byte_array(gen::arr32(r)), vout: r.gen_range(0..5) },
-            is_pegin: false,
+            // the peg-in flag changes nothing about amounts (the claimed output is passed as the spent one)
+            is_pegin: gen::chance(r, 1, 4),
             script_sig: Script::new(),
             sequence: elements::Sequence(0xffff_ffff),
             asset_issuance: AssetIssuance::null(),
@@ -288,8 +289,20 @@ fn explicit_case(r: &mut Rg, k: u64) -> ExplicitCase {
     }
     let mut expect_ok = true;
     let mut why = "balanced".to_string();
-    match k % 10 {
+    match k % 11 {
         0 | 1 => {}
+        10 => {
+            // nothing is paid out: every output is replaced by a zero-value output on an unspendable
+            // script or a zero fee, so the output side of the tally is empty while the inputs carry value
+            for o in outputs.iter_mut() {
+                o.value = Value::Explicit(0);
+                if !o.script_pubkey.is_empty() {
+                    o.script_pubkey = Script::from(vec![0x6a]);
+                }
+            }
+            expect_ok = false;
+            why = "inputs-with-value-but-only-zero-value-outputs".into();
+        }
         8 => {
             // an output that equals a spent output (same asset, same amount) appears twice
             let a = spent[0].asset.explicit().unwrap();
